@@ -36,6 +36,10 @@ def mutants(which):
         for d in sorted(glob.glob('/tmp/seed3/*/out/[mr]*/patch.diff')):
             parts = d.split('/')
             ms.append(('seed3/%s-%s' % (parts[3], parts[5]), d, False))
+    if 'seed4' in which:
+        for d in sorted(glob.glob('/tmp/seed4/*/out/[mr]*/patch.diff')):
+            parts = d.split('/')
+            ms.append(('seed4/%s-%s' % (parts[3], parts[5]), d, False))
     if 'unfix' in which:
         for h, s in fix_commits():
             ms.append(('unfix/%s %s' % (h, s[:60]), h, True))
